@@ -254,6 +254,18 @@ class CallGraph:
                 for s in bl["st"]:
                     if s["k"] == "assign" and s["r"]["k"] == "agg" and s["r"].get("ak") == "closure":
                         outs.add(s["r"]["path"])
+                    # a function item used as a VALUE (stored in a function pointer, passed to a combinator): it may be called from here
+                    if s["k"] == "assign":
+                        r_ = s["r"]
+                        for o_ in [r_.get("o"), r_.get("a"), r_.get("b")] + list(r_.get("ops") or []):
+                            if isinstance(o_, dict) and o_.get("k") == "const" and isinstance(o_.get("v"), dict) and "fn" in o_["v"]:
+                                fnp = o_["v"]["fn"]
+                                if fnp in facts.bodies:
+                                    outs.add(fnp)
+                if t["k"] == "call":
+                    for a_ in t["args"]:
+                        if a_.get("k") == "const" and isinstance(a_.get("v"), dict) and "fn" in a_["v"] and a_["v"]["fn"] in facts.bodies:
+                            outs.add(a_["v"]["fn"])
             self.edges[key] = outs
 
     def reachable(self, root, stop=()):
